@@ -1,5 +1,6 @@
 import GmqttVerif.Model.Deliver
 import GmqttVerif.Model.Queue
+import GmqttVerif.Model.AliasFifo
 /-
   Layer B: one broker as a sequential state machine at wire level (server/server.go + server/client.go).
 
@@ -72,6 +73,8 @@ structure Cli where
   quota : Nat := 0        -- serverReceiveMaximumQuota
   cleanWill : Bool := false
   discExpiry : Option (Option Nat) := none   -- DISCONNECT seen: its Session Expiry property
+  aliasIn : List (Nat × String) := []        -- `aliasMapper`: inbound alias ↦ topic
+  aliasOut : Alias.Fifo String := Alias.Fifo.new 0   -- `topicAliasManager` (fifo) for outbound aliases
   deriving Repr, Inhabited
 
 structure Out where
@@ -89,12 +92,38 @@ structure B where
   subs : List (String × Sub) := []             -- abstract subscription table
   retained : List (String × Msg) := []         -- topic ↦ retained message
   msgs : List Msg := []                        -- message of queue element `tag` (index)
+  ats : List Nat := []                         -- `Elem.At` of queue element `tag` (ms)
   pendingWills : List (String × Msg × Nat) := []   -- delayed wills: cid, message, due (ms)
   out : List Out := []
   deriving Repr, Inhabited
 
 def B.emit (b : B) (conn : String) (poll : Bool) (p : Pkt) : B :=
   { b with out := b.out ++ [{ conn := conn, poll := poll, pkt := p }] }
+
+def B.sess?' (b : B) (cid : String) : Option Sess := b.sessions.find? (·.cid == cid)
+
+/-- size of the Topic Alias property on the wire -/
+def aliasPropBytes : Nat := 3
+
+/-- a PUBLISH passes through `writeLoop`: for a v5 client that accepts aliases the fifo manager is consulted;
+    a known topic is replaced by its alias (zero-length topic name), a new one is sent in full with the alias that
+    is now bound to it. `size` is adjusted to what goes on the wire. -/
+def B.emitPub (b : B) (conn : String) (p : Pkt) : B :=
+  match p, b.clis.find? (·.conn == conn) with
+  | .publish topic qos retain dup id tag plen sids exp _ size, some c =>
+    if c.v == 5 && c.cliAliasMax > 0 then
+      match c.aliasOut.check topic with
+      | .ok q a exist =>
+        let c' := { c with aliasOut := q }
+        let b := { b with clis := c' :: b.clis.filter (·.conn != conn) }
+        if exist then
+          b.emit conn true (.publish "" qos retain dup id tag plen sids exp (some a) (size - topic.utf8ByteSize + aliasPropBytes))
+        else if a != 0 then
+          b.emit conn true (.publish topic qos retain dup id tag plen sids exp (some a) (size + aliasPropBytes))
+        else b.emit conn true p
+      | .panic => b.emit conn true p
+    else b.emit conn true p
+  | _, _ => b.emit conn true p
 
 def B.sess? (b : B) (cid : String) : Option Sess := b.sessions.find? (·.cid == cid)
 def B.cli? (b : B) (conn : String) : Option Cli := b.clis.find? (·.conn == conn)
@@ -132,14 +161,16 @@ def B.enqueue (b : B) (cid : String) (origQos : Nat) (m : Msg) : B :=
     if !b.cfg.queueQos0 && (b.cliOf? cid).isNone && origQos == 0 then b
     else
       let v := match b.cliOf? cid with | some c => c.v | none => s.queue.limit * 0 + 4
+      -- lifetime = the publisher's interval capped by the configured maximum
       let exp : Option Nat :=
         if b.cfg.msgExpiry != 0 then
-          (if m.expiry != 0 then some (b.now + m.expiry * 1000) else some (b.now + b.cfg.msgExpiry * 1000))
+          (if m.expiry != 0 && m.expiry ≤ b.cfg.msgExpiry then some (b.now + m.expiry * 1000)
+           else some (b.now + b.cfg.msgExpiry * 1000))
         else if m.expiry != 0 then some (b.now + m.expiry * 1000) else none
       let tag := b.msgs.length
       let e : Queue.Elem := { tag := tag, pub := true, id := 0, qos := m.qos, exp := exp, size := totalBytes v m }
       let (q', _) := s.queue.add b.now e
-      { (b.setSess { s with queue := q' }) with msgs := b.msgs ++ [m] }
+      { (b.setSess { s with queue := q' }) with msgs := b.msgs ++ [m], ats := b.ats ++ [b.now] }
 
 /-- shared-group choice: the hinted member (by subscription id) if it is a member, else the first -/
 def pickBy (hints : List Nat) (_g : String) (members : List (String × Sub)) : Option (String × Sub) :=
@@ -171,13 +202,17 @@ def freshIds (used : List Nat) : Nat → List Nat
     let i := freshId used (used.length + 1) 1
     i :: freshIds (i :: used) n
 
+/-- the Message Expiry Interval forwarded to a v5 subscriber: the received interval minus the whole seconds the
+    message waited in the broker (at least 1) -/
+def remaining (orig waitedMs : Nat) : Nat :=
+  let d := waitedMs / 1000
+  if d < orig then orig - d else 1
+
 /-- what `pollNewMessages` writes for one element returned by `Read` -/
 def B.pubPkt (b : B) (c : Cli) (e : Queue.Elem) (at_ : Nat) : Pkt :=
   let m := b.msgOf e.tag
   let exp : Option Nat :=
-    if c.v == 5 && m.expiry != 0 then
-      let d := (b.now - at_) / 1000
-      if d != 0 then some d else none
+    if c.v == 5 && m.expiry != 0 then some (remaining m.expiry (b.now - at_))
     else none
   let m' := { m with expiry := match exp with | some d => d | none => 0 }
   .publish m.topic m.qos m.retained m.dup e.id m.tag m.plen (if c.v == 5 then m.sids else []) exp none
@@ -199,9 +234,16 @@ def B.pump (b : B) (conn : String) : Nat → B
           let ids := freshIds c.used n
           match s.queue.read b.now ids with
           | (q', .ok out _) =>
-            let b1 := out.foldl (fun bb (e : Queue.Elem) => bb.emit conn true (b.pubPkt c e b.now)) b
+            let b1 := out.foldl (fun bb (e : Queue.Elem) => bb.emitPub conn (b.pubPkt c e (b.ats.getD e.tag b.now))) b
+            -- the stored message keeps the reduced interval (it is what a later retransmission carries)
+            let b1 := { b1 with msgs := out.foldl (fun (ms : List Msg) (e : Queue.Elem) =>
+                          let m := ms.getD e.tag default
+                          if c.v == 5 && m.expiry != 0 then
+                            ms.set e.tag { m with expiry := remaining m.expiry (b.now - b.ats.getD e.tag b.now) }
+                          else ms) b1.msgs }
             let usedIds := (out.filter (fun e => e.qos != 0)).map (·.id)
-            let b2 := (b1.setSess { s with queue := q' }).setCli { c with used := c.used ++ usedIds }
+            let c1 := match b1.cli? conn with | some x => x | none => c     -- alias state may have moved
+            let b2 := (b1.setSess { s with queue := q' }).setCli { c1 with used := c.used ++ usedIds }
             b2.pump conn fuel
           | _ => b
 
@@ -225,11 +267,12 @@ def B.replay (b : B) (conn : String) : Nat → B
           let (b1, used) := els.foldl (fun (acc : B × List Nat) (e : Queue.Elem) =>
             if e.pub then
               let m := b.msgOf e.tag
-              (acc.1.emit conn true (.publish m.topic m.qos m.retained true e.id m.tag m.plen []
+              (acc.1.emitPub conn (.publish m.topic m.qos m.retained true e.id m.tag m.plen []
                  (if c.v == 5 && m.expiry != 0 then some m.expiry else none) none
                  (totalBytes c.v { m with sids := [] })), acc.2 ++ [e.id])
             else (acc.1.emit conn true (.pubrel e.id), acc.2 ++ [e.id])) (b0, c.used)
-          (b1.setCli { c with used := used }).replay conn fuel
+          let c1 := match b1.cli? conn with | some x => x | none => c
+          (b1.setCli { c1 with used := used }).replay conn fuel
 
 /-! ### session end -/
 
@@ -355,7 +398,7 @@ def B.connect (b : B) (r : ConnectReq) : B :=
                        will := r.will.map (fun (w : Msg × Nat) => w.1), willDelay := if r.v == 5 then (match r.will with | some w => w.2 | none => 0) else 0,
                        queue := queue, unack := unack }
   let cli : Cli := { conn := r.conn, cid := r.cid, v := r.v, maxInflight := maxInflight, cliMaxPkt := cliMaxPkt,
-                     cliAliasMax := cliAliasMax, quota := cfg.recvMax }
+                     cliAliasMax := cliAliasMax, quota := cfg.recvMax, aliasOut := Alias.Fifo.new cliAliasMax }
   let b := { (b.setSess sess).setCli cli with offline := b.offline.filter (·.1 != r.cid) }
   let b := b.emit r.conn false (.connack resume 0 (if r.v == 5 then some (se, cfg.recvMax, cfg.aliasMax, cfg.maxPacket, ka) else none))
   b.replay r.conn 100000
@@ -412,7 +455,7 @@ def B.subscribe (b : B) (conn : String) (pid : Nat) (topics : List SubTopic) (id
                     let e : Queue.Elem := { tag := bb.msgs.length, pub := true, id := 0, qos := m'.qos, exp := exp,
                                             size := totalBytes c.v m' }
                     let (q', _) := s.queue.add bb.now e
-                    { (bb.setSess { s with queue := q' }) with msgs := bb.msgs ++ [m'] }) b
+                    { (bb.setSess { s with queue := q' }) with msgs := bb.msgs ++ [m'], ats := bb.ats ++ [bb.now] }) b
             else b
           (b, acc.2 ++ [code])) (b, [])
       b.emit conn false (.suback pid codes)
@@ -446,8 +489,11 @@ def B.publish (b : B) (r : PubReq) : B :=
   match b.cli? r.conn with
   | none => b
   | some c =>
+    -- the decoder refuses alias 0 (0x94) and a zero-length topic name without alias (0x82) before anything else
+    if c.v == 5 && r.alias == some 0 then b.kick r.conn (some 0x94)
+    else if r.topic == "" && (c.v != 5 || r.alias.isNone) then b.kick r.conn (some 0x82)
     -- readLoop: receive quota (v5, QoS>0)
-    if c.v == 5 && r.qos > 0 && c.quota == 0 then b.kick r.conn (some 0x93)
+    else if c.v == 5 && r.qos > 0 && c.quota == 0 then b.kick r.conn (some 0x93)
     else
       let c := if c.v == 5 && r.qos > 0 then { c with quota := c.quota - 1 } else c
       let b := b.setCli c
@@ -455,6 +501,25 @@ def B.publish (b : B) (r : PubReq) : B :=
       if c.v == 5 && b.cfg.maxPacket != 0 && r.size > b.cfg.maxPacket then b.kick r.conn (some 0x95)
       else if !b.cfg.retainAvail && r.retain then b.kick r.conn (some 0x9A)
       else
+        -- topic alias (v5): 0 is refused by the decoder, > advertised maximum by the handler; an empty topic name
+        -- needs a bound alias; a non-empty one (re)binds it
+        let aliasRes : Except Nat (String × Cli) :=
+          if c.v == 5 then
+            match r.alias with
+            | some a =>
+              if a == 0 || a > b.cfg.aliasMax then .error 0x94
+              else if r.topic == "" then
+                match c.aliasIn.find? (fun (p : Nat × String) => p.1 == a) with
+                | some (_, t) => if t == "" then .error 0x94 else .ok (t, c)
+                | none => .error 0x94
+              else .ok (r.topic, { c with aliasIn := (a, r.topic) :: c.aliasIn.filter (fun (p : Nat × String) => p.1 != a) })
+            | none => if r.topic == "" then .error 0x82 else .ok (r.topic, c)
+          else if r.topic == "" then .error 0x82 else .ok (r.topic, c)
+        match aliasRes with
+        | .error code => b.kick r.conn (some code)
+        | .ok (topic, c) =>
+        let b := b.setCli c
+        let r := { r with topic := topic }
         let m : Msg := { topic := r.topic, tag := r.tag, plen := r.plen, qos := r.qos, retained := r.retain, dup := r.dup,
                          expiry := match r.expiry with | some e => e | none => 0 }
         match b.sess? c.cid with
